@@ -107,6 +107,12 @@ def distance(vc):
     else:
         d = vc.bytes_(9, "d")
         w = RS.generate(d, b"\x00\x00\x00")
+        from pyvc import core
+
+        # premise of the lemma: generate() is ONE GF(2)-linear map of the message - no branch of it may depend on the message
+        vc.prove("generate_takes_one_path_for_all_messages", len(core.C.decisions) == 0)
+        if core.C.decisions:
+            return
         ins = sum([lsb_bits(vc, d[i]) for i in range(9)], [])
         outs = sum([lsb_bits(vc, w[9 + i]) for i in range(3)], [])
         rows, consts = vc.linear_map(outs, ins)
@@ -129,3 +135,11 @@ def distance(vc):
                     else:
                         basis.append(v)
     vc.prove("every_1_to_3_octet_corruption_changes_the_syndrome", bad is None, note=dict(undetected_positions=bad))
+
+
+# (on the current tree each of these is 1-3 paths: generate / check are straight-line over GF(256) tables.  Budgets keep a change
+# that makes the division loop data-dependent from running for minutes; what the explored paths refute stands)
+for _c in (generate, check, distance):
+    _c.max_paths = 200
+    _c.budget_s = 90
+distance.max_paths = 8
